@@ -342,7 +342,8 @@ pub fn gen_msg(rng: &mut Rng, max_payload: usize) -> RMsg {
         max_depth: 3,
         max_children: 4,
         inexpressible: false,
-        long_strings: false,
+        // one message in ten may carry strings of several KiB up to the 65,535-byte limit
+        long_strings: rng.chance(1, 10),
     };
     match rng.below(12) {
         0 => RMsg::SetChunkSize(rng.u32_boundary() & 0x7FFF_FFFF),
